@@ -1551,18 +1551,30 @@ func (ex *Exec) floatOp(op token.Token, a, b F) Value {
 			d = ex.andD(d, nz)
 		}
 		return F{T: tb.RDiv(a.T, b.T), D: d}
-	case token.EQL:
-		return ex.normInt(tb.Eq(a.T, b.T))
-	case token.NEQ:
-		return ex.normInt(tb.Not(tb.Eq(a.T, b.T)))
-	case token.LSS:
-		return ex.normInt(tb.RLt(a.T, b.T))
-	case token.LEQ:
-		return ex.normInt(tb.RLe(a.T, b.T))
-	case token.GTR:
-		return ex.normInt(tb.RLt(b.T, a.T))
-	case token.GEQ:
-		return ex.normInt(tb.RLe(b.T, a.T))
 	}
-	panic(&GoPanic{Kind: "unsupported", Msg: "float op " + op.String()})
+	// comparisons follow IEEE on undefined (NaN) operands: every ordered comparison and == is false, != is true
+	var c *Term
+	switch op {
+	case token.EQL, token.NEQ:
+		c = tb.Eq(a.T, b.T)
+	case token.LSS:
+		c = tb.RLt(a.T, b.T)
+	case token.LEQ:
+		c = tb.RLe(a.T, b.T)
+	case token.GTR:
+		c = tb.RLt(b.T, a.T)
+	case token.GEQ:
+		c = tb.RLe(b.T, a.T)
+	default:
+		panic(&GoPanic{Kind: "unsupported", Msg: "float op " + op.String()})
+	}
+	if d != nil {
+		c = tb.And(d, c)
+	}
+	if op == token.NEQ {
+		c = tb.Not(c)
+	}
+	return ex.normInt(c)
 }
+
+
